@@ -164,13 +164,14 @@ type c19Early struct {
 }
 
 type c19Party struct {
-	EarlyLost []c19Early
-	Stream    []c19StreamFail
-	Status    int // 0 nil, 1 error, 2 never returned
-	Err       string
-	Ret       *c19Table
-	Fin       *c19Table
-	Pings     []c19Ping
+	HookNotReached bool // freeze mode: the hook call to be delayed was never made
+	EarlyLost      []c19Early
+	Stream         []c19StreamFail
+	Status         int // 0 nil, 1 error, 2 never returned
+	Err            string
+	Ret            *c19Table
+	Fin            *c19Table
+	Pings          []c19Ping
 }
 
 func c19Snapshot(nw *p2p.Network, k int) (*c19Table, []p2p.VerifPeerConns) {
@@ -660,6 +661,13 @@ func c19Run(cfg c19Cfg, rng *RNG) ([]c19Party, error) {
 	case <-time.After(3 * time.Second):
 	}
 
+	if hookMissing && calls.Load() > 0 {
+		// the hook works, but the scenario never got as far as the call to be delayed (e.g. a
+		// Connect that never returns): that is a stalled scenario, reported by the oracle below,
+		// not a reason to abort the whole run
+		res[0].HookNotReached = true
+		hookMissing = false
+	}
 	if hookMissing {
 		return nil, fmt.Errorf("hook call %d of yield(\"acceptConn:before-register\") was never made (%d calls): is the yield line in /repo/p2p/network.go acceptConn missing?", cfg.Freeze, calls.Load())
 	}
@@ -848,6 +856,7 @@ func runC19(c *Ctx) error {
 	}
 	fzs := []fz{
 		{2, 1, 1, []int{1}}, {2, 2, 2, []int{1}}, {2, 2, 1, []int{1}}, {2, 3, 3, []int{1}},
+		{2, 3, 2, []int{1}}, {2, 4, 2, []int{1}}, {2, 4, 3, []int{1}}, // a hello of connection c >= 1 delayed: later ones register first
 		{3, 1, 2, []int{1, 2}}, {3, 1, 2, []int{2, 1}}, {3, 2, 2, []int{1, 2}}, {3, 1, 3, []int{1, 2}},
 		{4, 1, 3, []int{1, 3, 2}},
 	}
@@ -914,6 +923,9 @@ func runC19(c *Ctx) error {
 		input := L(I(cfg.N), I(cfg.K), Ints(cfg.Order), I(cfg.Freeze))
 		obs := c19ObsSX(res)
 		c.Sample(map[string]interface{}{"cfg": cfg, "symptoms": symptoms})
+		if cfg.Mode == "freeze" && len(res) > 0 && res[0].HookNotReached {
+			symptoms = append(symptoms, fmt.Sprintf("hook call %d of yield(acceptConn:before-register) was never reached", cfg.Freeze))
+		}
 		if len(symptoms) == 0 {
 			c.Hist("clean")
 			c.Case(input, obs)
@@ -952,7 +964,7 @@ func runC19(c *Ctx) error {
 				cfg.N, cfg.K, cfg.Order, c19FailKinds[cfg.FailKind], cfg.FailParty, symptoms)
 		}
 		c.Fail(fkey, what, map[string]interface{}{"cfg": cfg, "observed": obs.String(), "symptoms": symptoms})
-		if cfg.Mode == "freeze" {
+		if cfg.Mode == "freeze" && !res[0].HookNotReached {
 			// the schedule is known: the model must predict the same failure
 			c.Case(input, obs)
 		}
